@@ -33,6 +33,9 @@ pub fn vp_body_write<B: Body, W: Write>(body: &mut B, writer: &mut W) -> (r: IoR
 //@@ end
 //@@ item src/request/body.rs struct Bytes vis=pub
 //@@ end
+/// `AsRef` is declared to Verus (it is an std trait vstd does not know): without the declaration a trait impl bounded by it cannot be stated
+#[verifier::external_trait_specification]
+pub trait ExAsRef<T: PointeeSized>: PointeeSized { type ExternalTraitSpecificationFor: AsRef<T>; fn as_ref(&self) -> &T; }
 pub uninterp spec fn as_ref_bytes<B>(b: B) -> Seq<u8>;
 /// `self.0.as_ref().as_bytes()` / `self.0.as_ref()` for AsRef<str> / AsRef<[u8]>
 #[verifier::external_body] pub fn vp_as_ref_str_bytes<B: AsRef<str>>(b: &B) -> (r: &[u8]) ensures r@ == as_ref_bytes(*b), r@.len() <= usize::MAX { b.as_ref().as_bytes() }
@@ -132,7 +135,7 @@ self.0.seek(SeekFrom::End(0))
 vp_file_seek_end(&mut self.0)
 //@@ contract
         ensures file_bytes(&final(self).0) == file_bytes(&old(self).0),
-            res matches Ok(k) ==> k == BodyKind::KnownLength(file_bytes(&old(self).0).len() as u64), // id: file_length_is_announced [C07]
+            res matches Ok(k) ==> k == BodyKind::KnownLength(file_bytes(&old(self).0).len() as u64) && file_bytes(&old(self).0).len() <= u64::MAX, // id: file_length_is_announced [C07]
 //@@ end
 //@@ fn src/request/body.rs impl~Body~for~File write rename=write_impl props=C07,C10
 //@@ sigrw R10
@@ -167,8 +170,27 @@ impl Body for Empty {
     fn write<W: Write>(&mut self, writer: W) -> (r: IoResult<()>) { let mut writer = writer; self.write_impl(&mut writer) }
     fn content_type(&mut self) -> (r: IoResult<Option<String>>) { Ok(None) }
 }
-// (`impl Body for Text<B>` cannot be restated: a trait impl bounded by `AsRef` trips Verus' trait-conflict checker; the Text/Bytes
-// obligations are the contracts of `write_impl` / `kind_impl` above.)
+impl<B: AsRef<str>> Body for Text<B> {
+    open spec fn octets(&self) -> Seq<u8> { as_ref_bytes(self.0) }
+    open spec fn kind_spec(&self) -> BodyKind { BodyKind::KnownLength(as_ref_bytes(self.0).len() as u64) }
+    fn kind(&mut self) -> (r: IoResult<BodyKind>) { self.kind_impl() }
+    fn write<W: Write>(&mut self, writer: W) -> (r: IoResult<()>) { let mut writer = writer; self.write_impl(&mut writer) }
+    fn content_type(&mut self) -> (r: IoResult<Option<String>>) { Ok(None) }
+}
+impl<B: AsRef<[u8]>> Body for Bytes<B> {
+    open spec fn octets(&self) -> Seq<u8> { as_ref_bytes(self.0) }
+    open spec fn kind_spec(&self) -> BodyKind { BodyKind::KnownLength(as_ref_bytes(self.0).len() as u64) }
+    fn kind(&mut self) -> (r: IoResult<BodyKind>) { self.kind_impl() }
+    fn write<W: Write>(&mut self, writer: W) -> (r: IoResult<()>) { let mut writer = writer; self.write_impl(&mut writer) }
+    fn content_type(&mut self) -> (r: IoResult<Option<String>>) { Ok(None) }
+}
+impl Body for File {
+    open spec fn octets(&self) -> Seq<u8> { file_bytes(&self.0) }
+    open spec fn kind_spec(&self) -> BodyKind { BodyKind::KnownLength(file_bytes(&self.0).len() as u64) }
+    fn kind(&mut self) -> (r: IoResult<BodyKind>) { self.kind_impl() }
+    fn write<W: Write>(&mut self, writer: W) -> (r: IoResult<()>) { let mut writer = writer; self.write_impl(&mut writer) }
+    fn content_type(&mut self) -> (r: IoResult<Option<String>>) { Ok(None) }
+}
 
 //@@ item src/request/body.rs struct ChunkedWriter vis=pub
 //@@ end
